@@ -28,16 +28,12 @@ Which(t, atts) ==
     LET raws == [j \in 1..Len(t.atts) |-> t.atts[j].raw]
         p0 == Predict({}, t.sc)
         p3 == Predict({"D3"}, t.sc)
-        p4 == Predict({"D4"}, t.sc)
-        p34 == Predict({"D3", "D4"}, t.sc)
         Ex(p) == IF t.mode # "sym" THEN "n/a" ELSE IF BytesMatch(p, raws) THEN "exact" ELSE "inexact"
     IN IF Matches(p0, atts, t.outcome) THEN [w |-> "design", e |-> Ex(p0)]
        ELSE IF Matches(p3, atts, t.outcome) THEN [w |-> "D3", e |-> Ex(p3)]
-       ELSE IF Matches(p4, atts, t.outcome) THEN [w |-> "D4", e |-> Ex(p4)]
-       ELSE IF Matches(p34, atts, t.outcome) THEN [w |-> "D3+D4", e |-> Ex(p34)]
        ELSE [w |-> "neither", e |-> "n/a"]
 Class(t, j) == IF j = 0 THEN "-"
-               ELSE (IF InClassD3(t.sc, j) THEN "D3" ELSE "") \o (IF InClassD4(t.sc, j) THEN "D4" ELSE "")
+               ELSE (IF InClassD3(t.sc, j) THEN "D3" ELSE "")
 
 TNext == /\ tid <= Len(Traces)
          /\ LET t == Traces[tid]
